@@ -143,7 +143,7 @@ func appendsStringProblem(from, to *ssa.BasicBlock) bool {
 			}
 			if c, ok := in.(*ssa.Call); ok {
 				if a := isAppend(c); a != nil {
-					if st, ok := a.Type().Underlying().(*types.Slice); ok && types.Identical(st.Elem(), types.Typ[types.String]) {
+					if st, ok := a.Type().Underlying().(*types.Slice); ok && isProblemElem(st.Elem()) {
 						return true
 					}
 				}
@@ -916,7 +916,7 @@ func argumentBoundIn(val *ssa.Function, start, stop *ssa.BasicBlock, isArg func(
 			}
 			if c, ok := in.(*ssa.Call); ok {
 				if a := isAppend(c); a != nil {
-					if st, ok := a.Type().Underlying().(*types.Slice); ok && types.Identical(st.Elem(), types.Typ[types.String]) {
+					if st, ok := a.Type().Underlying().(*types.Slice); ok && isProblemElem(st.Elem()) {
 						return true
 					}
 				}
@@ -1008,7 +1008,7 @@ func recordsProblem(in ssa.Instruction, depth int) bool {
 	}
 	if a := isAppend(c); a != nil {
 		st, ok := a.Type().Underlying().(*types.Slice)
-		return ok && types.Identical(st.Elem(), types.Typ[types.String])
+		return ok && isProblemElem(st.Elem())
 	}
 	h := c.Call.StaticCallee()
 	if h == nil || len(h.Blocks) == 0 || h.Pkg == nil || !strings.HasPrefix(h.Pkg.Pkg.Path(), load.Module) {
